@@ -44,7 +44,11 @@ def pearsonr(x: np.ndarray, y: np.ndarray) -> float:
     Returns:
         value between -1 and 1
     """
-    return (np.mean(x * y) - (np.mean(x) * np.mean(y))) / (np.std(x) * np.std(y))
+    dtype = np.result_type(x, y)
+    if dtype.kind in "iu":  # products of integer images must not wrap
+        dtype = np.dtype(np.float64)
+    xy = np.multiply(x, y, dtype=dtype)
+    return (np.mean(xy) - (np.mean(x) * np.mean(y))) / (np.std(x) * np.std(y))
 
 
 def pearsonr_probablity(
